@@ -1,6 +1,7 @@
 package main
 
 import (
+	"bufio"
 	"context"
 	"fmt"
 	"io"
@@ -67,6 +68,24 @@ func faultFor(run, node string) *faultSpec {
 		return nil
 	}
 	return f
+}
+
+// lineFaultReader serves a text one line per Read call; the fault hook runs before every Read.
+type lineFaultReader struct {
+	br *bufio.Reader
+	ft *faultSpec
+}
+
+func (l *lineFaultReader) Read(p []byte) (int, error) {
+	if err := l.ft.failure(); err != nil {
+		return 0, err
+	}
+	line, err := l.br.ReadString('\n')
+	n := copy(p, line)
+	if n < len(line) {
+		panic("lineFaultReader: short buffer")
+	}
+	return n, err
 }
 
 func faultMarker(node string) string { return "injected-fault-" + node }
@@ -240,7 +259,12 @@ func (e *progEnv) build(name string, op []string) bigslice.Slice {
 			fmt.Fprintf(&b, "%d\n", i)
 		}
 		text := b.String()
+		ftl := faultFor(e.run, name)
 		s := bigslice.ScanReader(nshard, func() (io.ReadCloser, error) {
+			if ftl != nil {
+				// the user's stream hands out one line per Read and may fail between two lines (or before the first)
+				return io.NopCloser(&lineFaultReader{br: bufio.NewReader(strings.NewReader(text)), ft: ftl}), nil
+			}
 			return io.NopCloser(strings.NewReader(text)), nil
 		})
 		return bigslice.Map(s, func(line string) (int64, int64) {
@@ -259,10 +283,12 @@ func (e *progEnv) build(name string, op []string) bigslice.Slice {
 		// a Map whose calls are counted (C13: was the upstream of a cached shard executed?)
 		fn := mapFn(op[2])
 		ftc := faultFor(e.run, name)
-		return bigslice.Map(e.mapSrc(op[1], op[2]), func(k, v int64) (int64, int64) {
+		// … and reported through user counter 0 as well: what the result's scope reports must be what was executed
+		return bigslice.Map(e.mapSrc(op[1], op[2]), func(ctx context.Context, k, v int64) (int64, int64) {
 			fx.mu.Lock()
 			fx.calls[name]++
 			fx.mu.Unlock()
+			progCounters[0].Incr(metrics.ContextScope(ctx), 1)
 			ftc.maybePanic()
 			return fn(k, v)
 		})
